@@ -610,7 +610,7 @@ class Exec:
             if len(argv) != len(sig["params"]):
                 raise Untranslatable("arity of generated function " + name, e)
             outs = sig["outs"]
-            res = [N("call", argv, sh, f"{name}{suffix}") for suffix, sh in outs]
+            res = [N("call", argv, sh, f"{sig.get('coq', name)}{suffix}") for suffix, sh in outs]
             return res[0] if len(res) == 1 else Tup(res)
         fn = self.tr.module_funcs(self.module).get(name)
         if fn is None:
@@ -721,7 +721,7 @@ XTABLE = {
     "add": "xadd", "sub": "xsub", "mul": "xmul", "div": "xdiv", "mod": None, "powr": None,
     "min": None, "max": None,
     "neg": "xneg", "exp": "xexp", "ln": "xln", "log1p": None, "sqrt": None, "abs": None,
-    "sum": "xvsum", "max_red": None, "mean": None, "var": None, "std": None, "len": "xvlen",
+    "sum": "xvsum", "max_red": "xvmax", "mean": None, "var": None, "std": None, "len": "xvlen",
     "lt": "xltb", "le": "xleb", "gt": "xgtb", "ge": "xgeb", "eq": "xeqb", "ne": "xneqb",
     "num": lambda fr: "(Fin %s)" % rnum(fr), "pi": "(Fin PI)", "clip": None, "powi": None, "T": "XR",
     "isnan": "xisnan", "isfinite": "xisfinite", "inf": "PInf", "nan": "NaN", "where": "xwhere",
